@@ -2,6 +2,8 @@
 import WD.Model.Observer
 import WD.Spec.ObserverSpec
 import WD.Proofs.Observer.Inv1
+import WD.Proofs.Observer.LStep
+import WD.Proofs.Observer.CStep
 namespace WD.ProofsObs
 open WD WD.Obs
 
@@ -58,5 +60,35 @@ theorem unschedule_joins_emitter (s : State) (ti : Nat) (t : Thread) (w : Wid) (
     (ht : s.thread? ti = some t) (hpc : t.pc = .unschedJoin w e) (he : s.em? e = some o) (hti : o.tidx = some ei)
     (hen : enabled s ti = true) : s.threadDone ei = true := by
   simpa [enabled, ht, hpc, he, hti] using hen
+
+/-! ### corrected variants of the four statements that are false as stated (see the counterexamples in
+    WD/Proofs/Observer/Counterexamples.lean): they hold along every schedule all of whose steps complete
+    (`runOk`: the `fuel` of the model never runs out in the middle of a step and no "impossible" branch of
+    the model is taken) -/
+
+theorem unregistered_on_return_partial (hok : runOk (init clients cbs emit) sched = true)
+    (p q : List Obs) (op : Op) (h : Hid) (w : Wid)
+    (hh : (run (init clients cbs emit) sched).hist = p ++ .did op "ok" :: q) (hr : removes op h w = true) :
+    registered p h w = false :=
+  (lq_reach clients cbs emit sched hok).good p _ q hh rfl h w hr
+
+theorem nothing_after_return_partial (hok : runOk (init clients cbs emit) sched = true)
+    (p q r : List Obs) (op : Op) (h : Hid) (w : Wid) (v u : Nat)
+    (hh : (run (init clients cbs emit) sched).hist = p ++ .did op "ok" :: q ++ .call h w v u :: r)
+    (hr : removes op h w = true) : Obs.reg h w ∈ q := by
+  have h1 : registered (p ++ .did op "ok" :: q) h w = true := routing clients cbs emit sched _ r h w v u hh
+  have h2 : registered p h w = false :=
+    unregistered_on_return_partial clients cbs emit sched hok p (q ++ .call h w v u :: r) op h w
+      (by rw [hh]; simp) hr
+  rw [registered_append, List.foldl_cons, h2] at h1
+  have h3 : regStep h w false (.did op "ok") = false := rfl
+  rw [h3] at h1
+  exact reg_mem_of_foldl rfl h1
+
+theorem complete_partial (hok : runOk (init clients cbs emit) sched = true)
+    (p q r : List Obs) (u : Nat) (w : Wid) (hs : List Hid)
+    (hh : (run (init clients cbs emit) sched).hist = p ++ .dispatch u w hs :: q ++ .dispatchEnd u :: r)
+    (h : Hid) (hm : h ∈ hs) : (∃ v, Obs.call h w v u ∈ q) ∨ Obs.skip h u ∈ q :=
+  complete_of_good (cx_reach clients cbs emit sched hok).good p q r u w hs hh h hm
 
 end WD.ProofsObs
